@@ -66,8 +66,11 @@ func ipFast(a uint32) bool {
 	n := iputil.ToInt(addr[:])
 	fr := iputil.ToBytesFrInt(n)
 	p := refIpParse(want)
-	return bytes.Equal(back, addr[:]) && bytes.Equal(p, addr[:]) && uint32(n) == a && bytes.Equal(fr, addr[:]) &&
+	ok := bytes.Equal(back, addr[:]) && bytes.Equal(p, addr[:]) && uint32(n) == a && bytes.Equal(fr, addr[:]) &&
 		addr == [4]byte{byte(a >> 24), byte(a >> 16), byte(a >> 8), byte(a)}
+	scribble(back) // the returned slices are the caller's (as in ipCall)
+	scribble(fr)
+	return ok
 }
 
 func bytesFast(b []byte, seed uint32, plen int) bool {
